@@ -1,19 +1,21 @@
 #!/bin/bash
-# Developer tool: apply a seeded change to /repo, run the quick checks of the given
-# properties (default: all), undo the change straight afterwards. Prints one line per check.
+# Developer tool: run quick checks against a seeded change WITHOUT touching /repo or /verif:
+# a scratch worktree of /repo's HEAD gets the patch, a scratch copy of /verif's working tree runs the checks.
 #   tools/try_patch.sh <patch.diff> [--tier T] [IDs...]
 set -u
 P=$(realpath "$1"); shift
 TIER=quick
 if [ "${1:-}" = "--tier" ]; then TIER=$2; shift 2; fi
 IDS="$*"; [ -z "$IDS" ] && IDS="C01 C02 C03 C04 C05 C06 C07 C08 C09 C10 C11 C12 C13 C14 C15 C16"
-cd /repo || exit 2
-if [ -n "$(git status --porcelain)" ]; then echo "/repo not clean"; exit 2; fi
-git apply "$P" || { echo "patch does not apply"; exit 2; }
-trap 'cd /repo && git checkout -- . && git clean -fdq' EXIT
-cd /verif
+T=/tmp/tp-$$; mkdir -p $T
+git -C /repo worktree add --detach $T/repo HEAD -q || exit 2
+trap 'git -C /repo worktree remove --force '$T'/repo 2>/dev/null; rm -rf '$T EXIT
+( cd $T/repo && git apply "$P" ) || { echo "patch does not apply"; exit 2; }
+rsync -a --exclude runs --exclude .cache --exclude bin --exclude .git /verif/ $T/verif/
+cd $T/verif
+export VERIF_REPO=$T/repo VERIF_GOCACHE=/verif/.cache/go-build
 for id in $IDS; do
-  out=$(./check $id --tier $TIER 2>&1); rc=$?
+  out=$(./check $id --tier $TIER ${TRY_JOBS:+--jobs $TRY_JOBS} 2>&1); rc=$?
   nv=$(echo "$out" | grep -c '^VIOLATION')
   first=$(echo "$out" | grep -m1 '^  C' | cut -c1-220)
   inc=$(echo "$out" | grep -m1 '^INCONCLUSIVE' | cut -c1-160)
